@@ -89,4 +89,15 @@ CLAIMS["C20"] = {
     "technique": "interprocedural may-alias / ownership dataflow with mutator summaries and frozen who-may-write tables (AST)",
 }
 
+CLAIMS["C18"] = {
+    "text": "Decides that integer digit counts come from an exact integer table lookup (searchsorted side='right' on 10**1..10**18, the table constant-evaluated) and never from a floating "
+            "logarithm, that the sign column and the '-' store are aligned with number < 0, that digits are (|x| // 10**k) % 10, that parsing neutralises both '-' and '+' on a private copy "
+            "and applies the sign after the digit sum, that float rows are dispatched to the decimal/scientific parsers under complementary masks and stored back under the same mask "
+            "(row independence), that the scientific value is mantissa * 10**exponent with the 'e' excluded, that the fixed-width digit matrix is right-aligned (start + width == end, "
+            "unclamped) with its padding filled, and that floats print with str(float) and integer lists from per-element strings. These are the structural halves of the conversions; "
+            "the numerical exactness of power tables around decimal points is value arithmetic and is not claimed.",
+    "note": _NOTE + "Known finding: |int64 min| (np.abs in int64). Not decided: float accuracy, exactness of _build_power_array for decimal points, batch independence beyond mask alignment.",
+    "technique": "idiom + symbolic normal forms of the conversion formulas, constant evaluation of the power table (AST)",
+}
+
 NOT_APPLICABLE = {}
